@@ -1778,6 +1778,7 @@ func (x *FnExec) mapUpdate(fr *Frame, v *ssa.MapUpdate, st *State, g *Term) {
 				continue
 			}
 			ev := x.specEnv(fr, st, x.entry, x.top)
+			ev.atInstr = v
 			ev.vars["mapkey"] = TV{fr.val(v.Key), v.Key.Type()}
 			ev.vars["mapval"] = TV{fr.val(v.Value), v.Value.Type()}
 			x.oblige("ASSERT", "at update of "+ma.Callee+": "+ma.Cl.Text, g, ev.evalBool(ma.Cl.E), v.Pos())
